@@ -126,20 +126,32 @@ theorem timeDerivative_hasDerivAt {U : V3 ℝ → ℝ} {svd : ℕ → Res ℝ} {
     simp only [subSmul_of_stdVel hv]
     exact this
 
+theorem quad_hasDerivAt (a b : ℝ) : HasDerivAt (fun x : ℝ => (a - x) * (a - x) + b) (-2 * a) 0 := by
+  have h1 : HasDerivAt (fun x : ℝ => a - x) (-1) 0 := by
+    simpa using (hasDerivAt_id (0 : ℝ)).const_sub a
+  have h := (h1.mul h1).add_const b
+  have e : (-1 * (a - 0) + (a - 0) * -1) = -2 * a := by ring
+  rw [e] at h
+  exact h
+
 theorem nsq_moved_hasDerivAt (s : V3 ℝ) (d : ℕ) :
     HasDerivAt (fun x => (s.moved d x).nsq) (-2 * s.get d) 0 := by
-  have h1 : ∀ a : ℝ, HasDerivAt (fun x : ℝ => a - x) (-1) 0 := fun a => by
-    simpa using (hasDerivAt_id (0 : ℝ)).const_sub a
   match d with
   | 0 =>
-    have := (((h1 s.x).mul (h1 s.x)).add_const (s.y * s.y)).add_const (s.z * s.z)
-    convert this using 1; simp only [V3.get]; ring
+    have h := quad_hasDerivAt s.x (s.y * s.y + s.z * s.z)
+    have e : (fun x => (s.moved 0 x).nsq) = fun x => (s.x - x) * (s.x - x) + (s.y * s.y + s.z * s.z) := by
+      funext x; simp only [V3.moved, V3.nsq]; ring
+    rw [e]; exact h
   | 1 =>
-    have := (((h1 s.y).mul (h1 s.y)).const_add (s.x * s.x)).add_const (s.z * s.z)
-    convert this using 1; simp only [V3.get]; ring
+    have h := quad_hasDerivAt s.y (s.x * s.x + s.z * s.z)
+    have e : (fun x => (s.moved 1 x).nsq) = fun x => (s.y - x) * (s.y - x) + (s.x * s.x + s.z * s.z) := by
+      funext x; simp only [V3.moved, V3.nsq]; ring
+    rw [e]; exact h
   | (n + 2) =>
-    have := ((h1 s.z).mul (h1 s.z)).const_add (s.x * s.x + s.y * s.y)
-    convert this using 1; simp only [V3.get]; ring
+    have h := quad_hasDerivAt s.z (s.x * s.x + s.y * s.y)
+    have e : (fun x => (s.moved (n + 2) x).nsq) = fun x => (s.z - x) * (s.z - x) + (s.x * s.x + s.y * s.y) := by
+      funext x; simp only [V3.moved, V3.nsq]; ring
+    rw [e]; exact h
 
 @[simp] theorem moved_zero (s : V3 ℝ) (d : ℕ) : s.moved d 0 = s := by
   unfold V3.moved; split <;> simp
